@@ -38,7 +38,6 @@ def RgWF (w : W) : Prop := ∀ cws, w.rg = some cws → cws.length = w.cols.leng
 /-- nothing has failed so far: the stream holds exactly what the healthy writer has written -/
 structure Good (x : SW ε) : Prop where
   err : x.s.err = false
-  carry : x.carry = 0
   bytes : x.s.delivered ++ x.s.pending = x.w.out.flatten
   log : NoFail x.log
   rg : RgWF x.w
@@ -249,7 +248,7 @@ theorem rgWF_flushRowGroup (D : Deps) (w : W) (h : RgWF w) : RgWF (flushRowGroup
 
 theorem commitRowGroup_zero (D : Deps) (w : W) (cws : List ColW) (bytes : Bytes) (metas : List ChunkMeta)
     (hr : w.rg = some cws) (hf : finalizeCols D w w.cols cws w.fileOffset = some (bytes, metas)) :
-    flushRowGroup D w = (commitRowGroup D w cws bytes metas 0, .ok) := by
+    flushRowGroup D w = (commitRowGroup D w cws bytes metas, .ok) := by
   unfold flushRowGroup commitRowGroup
   simp [hr, hf]
 
@@ -300,7 +299,7 @@ theorem ensureHeaderS_good (E : Env ε) (x : SW ε) (g : Good x) (h : (ensureHea
     by_cases hr : (swrite E x magic).2 = true
     · simp only [hr, if_true] at h ⊢
       obtain ⟨_, _, c3, c4⟩ := swrite_clear E x magic h
-      refine ⟨⟨h, g.carry, ?_, c4 g.log, rgWF_ensureHeader _ g.rg⟩, by simp⟩
+      refine ⟨⟨h, ?_, c4 g.log, rgWF_ensureHeader _ g.rg⟩, by simp⟩
       show (swrite E x magic).1.s.delivered ++ (swrite E x magic).1.s.pending = (ensureHeader x.w).out.flatten
       rw [c3, g.bytes, ensureHeader_out, hw']
       simp
@@ -320,13 +319,13 @@ theorem ensureHeaderS_quiet (E : Env ε) (hE : Quiet E) (x : SW ε) (h : x.s.err
 
 /-- a failed header write leaves the writer as it was: the next call tries again -/
 theorem ensureHeaderS_retry (E : Env ε) (x : SW ε) (h : (ensureHeaderS E x).2 ≠ .ok) :
-    (ensureHeaderS E x).1.w = x.w ∧ (ensureHeaderS E x).1.carry = x.carry := by
+    (ensureHeaderS E x).1.w = x.w := by
   unfold ensureHeaderS at h ⊢
   split
-  · exact ⟨rfl, rfl⟩
+  · rfl
   · by_cases hr : (swrite E x magic).2 = true
     · rename_i hw; simp [hw, hr] at h
-    · simp only [hr]; exact ⟨rfl, rfl⟩
+    · simp only [hr]; rfl
 
 /-! ### `flush_row_group` -/
 
@@ -382,7 +381,7 @@ theorem flushRowGroupS_good (D : Deps) (E : Env ε) (x : SW ε) (g : Good x)
       obtain ⟨bytes, metas⟩ := p
       simp only [hf] at h ⊢
       have hfl := commitRowGroup_zero D x.w cws bytes metas hr hf
-      have hwf : RgWF (commitRowGroup D x.w cws bytes metas 0) := by
+      have hwf : RgWF (commitRowGroup D x.w cws bytes metas) := by
         have := rgWF_flushRowGroup D x.w g.rg
         rw [hfl] at this; exact this
       rw [hfl]
@@ -391,24 +390,24 @@ theorem flushRowGroupS_good (D : Deps) (E : Env ε) (x : SW ε) (g : Good x)
         by_cases hw : (swrite E x bytes).2 = true
         · simp only [hw, if_true] at h ⊢
           obtain ⟨_, _, c3, c4⟩ := swrite_clear E x bytes h
-          refine ⟨⟨h, rfl, ?_, c4 g.log, ?_⟩, by rw [g.carry], trivial⟩
+          refine ⟨⟨h, ?_, c4 g.log, ?_⟩, trivial, trivial⟩
           · show (swrite E x bytes).1.s.delivered ++ (swrite E x bytes).1.s.pending =
-              (commitRowGroup D x.w cws bytes metas x.carry).out.flatten
+              (commitRowGroup D x.w cws bytes metas).out.flatten
             rw [c3, g.bytes]
             simp [commitRowGroup, hb]
-          · show RgWF (commitRowGroup D x.w cws bytes metas x.carry)
-            rw [g.carry]; exact hwf
+          · show RgWF (commitRowGroup D x.w cws bytes metas)
+            exact hwf
         · simp only [hw] at h
           have := swrite_fail E x bytes (by simpa using hw)
           simp only [Bool.false_eq_true, if_false] at h
           rw [this] at h; cases h
       · simp only [hb, if_false] at h ⊢
-        refine ⟨⟨h, rfl, ?_, g.log, ?_⟩, by rw [g.carry], trivial⟩
-        · show x.s.delivered ++ x.s.pending = (commitRowGroup D x.w cws bytes metas x.carry).out.flatten
+        refine ⟨⟨h, ?_, g.log, ?_⟩, trivial, trivial⟩
+        · show x.s.delivered ++ x.s.pending = (commitRowGroup D x.w cws bytes metas).out.flatten
           rw [g.bytes]
           simp [commitRowGroup, hb]
-        · show RgWF (commitRowGroup D x.w cws bytes metas x.carry)
-          rw [g.carry]; exact hwf
+        · show RgWF (commitRowGroup D x.w cws bytes metas)
+          exact hwf
 
 theorem flushRowGroupS_quiet (D : Deps) (E : Env ε) (hE : Quiet E) (x : SW ε) (h : x.s.err = false) :
     (flushRowGroupS D E x).1.s.err = false := by
@@ -463,7 +462,7 @@ theorem writeBatchS_good (D : Deps) (E : Env ε) (x : SW ε) (b : Batch) (g : Go
     · simp only [ho, if_true] at h ⊢
       obtain ⟨g1, w1, _⟩ := ensureHeaderS_good E x g h
       obtain ⟨o1, o2, _, _⟩ := writeBatch_spec D x.w b g.rg c hc
-      refine ⟨⟨h, g1.carry, ?_, g1.log, o2⟩, by simp⟩
+      refine ⟨⟨h, ?_, g1.log, o2⟩, by simp⟩
       show (ensureHeaderS E x).1.s.delivered ++ (ensureHeaderS E x).1.s.pending = (writeBatch D x.w b).1.out.flatten
       rw [g1.bytes, w1, o1]
     · simp only [ho, if_false] at h
@@ -750,7 +749,7 @@ theorem closeS_quiet (D : Deps) (E : Env ε) (hE : Quiet E) (owns : Bool) (x : S
 
 theorem good_init (e : ε) (cols : List Col) (codec pageSize : Nat) (createdBy : String) :
     Good (initS e cols codec pageSize createdBy) :=
-  ⟨rfl, rfl, rfl, fun _ h => by simp [initS] at h, fun _ h => by simp [initS] at h⟩
+  ⟨rfl, rfl, fun _ h => by simp [initS] at h, fun _ h => by simp [initS] at h⟩
 
 /-- OK from close: the indicator was clear all along, and from a `Good` state the run is the healthy run -/
 theorem runS_ok (D : Deps) (E : Env ε) (owns : Bool) : ∀ (ops : List Op) (x : SW ε) (acc : List Status),
